@@ -41,7 +41,7 @@ pub fn feasible(opts: &mut BasicOpts, sc_knobs: (&crate::cfgs::TKnobs, &crate::c
 
 fn run_basic(ch: Chooser, ctx: &RunCtx, mut opts: BasicOpts) -> RunOut {
     let mut w = World::from_ctx(ch, ctx);
-    opts.op_kinds = vec![0, 1, 2, 3, 4, 5, 6, 7];
+    opts.op_kinds = vec![0, 1, 2, 3, 4, 5, 6, 7, 9];
     // some readers come back to a stream only some milliseconds after they were notified:
     // retransmitted, duplicated and reordered fragments pile up in the receive buffer
     opts.wl.lazy = 250;
